@@ -219,6 +219,7 @@ def run_closure_over(ctx, it, f, tag):
     return call_callable(ctx, f, [item], tag)
 
 
+@M.reg_re(r"as core::iter::traits::iterator::Iterator>::(all|any)$")
 @M.reg("core::iter::traits::iterator::Iterator::all", "core::iter::traits::iterator::Iterator::any")
 def m_all(ctx):
     it = ctx.deref(ctx.args[0], "self")
@@ -1064,3 +1065,70 @@ def m_last_chunk(ctx):
 
 M.exact["<alloc::vec::Vec<T, A> as core::ops::index::Index<I>>::index"] = M.exact["core::slice::index::<impl core::ops::index::Index<I> for [T]>::index"]
 M.exact["<alloc::vec::Vec<T, A> as core::ops::index::IndexMut<I>>::index_mut"] = M.exact["core::slice::index::<impl core::ops::index::Index<I> for [T]>::index"]
+
+
+M.patterns.append((__import__("re").compile(r"as core::iter::traits::iterator::Iterator>::find$"), m_iter_find))
+M.patterns.append((__import__("re").compile(r"as core::iter::traits::iterator::Iterator>::map$"), m_iter_map))
+M.patterns.append((__import__("re").compile(r"as core::iter::traits::iterator::Iterator>::(filter|filter_map)$"), m_iter_filter))
+M.patterns.append((__import__("re").compile(r"as core::iter::traits::iterator::Iterator>::skip$"), m_iter_skip))
+
+
+@M.reg("core::array::<impl core::convert::TryFrom<&'a [T]> for &'a [T; N]>::try_from", "core::array::<impl core::convert::TryFrom<&'a mut [T]> for &'a mut [T; N]>::try_from")
+def m_array_ref_try_from(ctx):
+    from .models import arr_of_fresh
+
+    S = ctx.S
+    n = ctx.garg_const(0)
+    v, ref = seq_of(ctx, ctx.args[0])
+    ln = len_sym(ctx, v)
+    r = S.decide_cmp("Eq", S.term(ln), Lin.const(n))
+    arr = derived(ctx, arr_of_fresh(ctx, v, n, "rtf"), "rtf")
+    if r is True:
+        return Enum(RES, {"Ok": (arr,)})
+    if r is False:
+        return Enum(RES, {"Err": (Opaque(),)})
+    return result(arr, Opaque())
+
+
+@M.reg("alloc::slice::<impl [T]>::concat", "alloc::str::<impl [S]>::concat", "alloc::slice::<impl [T]>::join", "alloc::str::<impl [S]>::join")
+def m_concat(ctx):
+    # an owned string / vector made of the parts: nothing is tracked but that it is a sequence
+    return ctx.top_ret()
+
+
+# enum constructors used as functions (`.map(Some)`, `.map_err(Err)`)
+@M.reg("core::option::Option::Some")
+def m_ctor_some(ctx):
+    return Enum(OPT, {"Some": (ctx.args[0],)})
+
+
+@M.reg("core::result::Result::Ok")
+def m_ctor_ok(ctx):
+    return Enum(RES, {"Ok": (ctx.args[0],)})
+
+
+@M.reg("core::result::Result::Err")
+def m_ctor_err(ctx):
+    return Enum(RES, {"Err": (ctx.args[0],)})
+
+
+# the remaining ASCII class predicates of u8 / char (documented value sets)
+_ASCII_CLASSES = {
+    "is_ascii_alphanumeric": [(48, 57), (65, 90), (97, 122)],
+    "is_ascii_uppercase": [(65, 90)],
+    "is_ascii_lowercase": [(97, 122)],
+    "is_ascii_hexdigit": [(48, 57), (65, 70), (97, 102)],
+    "is_ascii_punctuation": [(33, 47), (58, 64), (91, 96), (123, 126)],
+    "is_ascii_graphic": [(33, 126)],
+    "is_ascii_control": [(0, 31), (127, 127)],
+    "is_ascii": [(0, 127)],
+}
+
+
+def _mk_ascii(ranges):
+    return lambda ctx: ascii_pred(ctx, ranges)
+
+
+for _n, _r in _ASCII_CLASSES.items():
+    for _p in ("core::num::<impl u8>::", "core::char::methods::<impl char>::"):
+        M.exact[_p + _n] = _mk_ascii(_r)
